@@ -121,6 +121,48 @@ def c20_render(c: int, where: int, via_tuple: bool) -> bool:
     return run(_render_body, c, where, via_tuple)
 
 
+def _block_body(idx):
+    """Every code point of one 0x1000 block (the block index is the solver's variable) inside a field name and a filename, alone,
+    after a base letter (combining marks) and between letters, through RequestField.from_tuples + render_headers: the header
+    block is exactly what was specified — no folding, normalisation, truncation or re-encoding of any character."""
+    from kit.h import decode_point
+    from kit import net as N
+
+    def sweep(block):
+        lo = block * 0x1000
+        for c in range(lo, lo + 0x1000):
+            if 0xD800 <= c <= 0xDFFF:
+                continue
+            ch = chr(c)
+            e = "%0A" if c == 10 else ("%0D" if c == 13 else ("%22" if c == 34 else ch))
+            for pre, post in (("", ""), ("e", ""), ("a", "b")):
+                name = pre + ch + post
+                rf = RequestField.from_tuples(name, (name + ".txt", "data", "text/plain"))
+                got = rf.render_headers()
+                want = ('Content-Disposition: form-data; name="%s"; filename="%s"\r\nContent-Type: text/plain\r\n\r\n'
+                        % (pre + e + post, pre + e + post + ".txt"))
+                if got != want:
+                    return _fail("code point U+%04X in %r: header block %r, expected %r" % (c, name, got, want))
+        return True
+    (block,) = decode_point(idx, block_dims)
+    return N._untraced(sweep)(block)
+
+
+def block_dims(part):
+    return [list(range(part["lo"], part["hi"]))]
+
+
+def c20_block(idx: int) -> bool:
+    """
+    pre: 0 <= idx < P.n
+    post: _
+    """
+    return run(_block_body, idx)
+
+
+DIMS = {"c20_block": block_dims}
+
+
 class MultipartError(Exception):
     pass
 
@@ -202,6 +244,14 @@ def _layout_body(s, b, nfields, form):
         fields = dict(as_tuple(sp) for sp in specs)
     elif form == 1:
         fields = [as_tuple(sp) for sp in specs]
+    elif form == 3:
+        # RequestField objects that were all given the SAME (empty) dict as headers=: each must keep its own header block
+        shared = {"X-Shared": "1"}
+        fields = []
+        for name, fn, ct, data in specs:
+            rf = RequestField(name, data, filename=fn, headers=shared)
+            rf.make_multipart(content_type=ct)
+            fields.append(rf)
     else:
         fields = []
         for name, fn, ct, data in specs:
@@ -216,6 +266,8 @@ def _layout_body(s, b, nfields, form):
     except MultipartError as e:
         return _fail("strict parser rejects the body: %s" % e)
     exp = [expected_part(*sp) for sp in specs]
+    if form == 3:
+        exp = [(lines + [b"X-Shared: 1"], payload) for (lines, payload) in exp]
     if len(parts) != len(exp):
         return _fail("%d parts, expected %d" % (len(parts), len(exp)))
     for i, (got, want) in enumerate(zip(parts, exp)):
@@ -300,16 +352,23 @@ def JOBS(tier):
             {"func": "c20_render", "part": {"where": 0, "via_tuple": True}, "timeout": t},
             {"func": "c20_render", "part": {"where": 1, "via_tuple": True}, "timeout": t},
             {"func": "c20_param", "part": {"maxlen": 3 if quick else 4}, "timeout": t},
-            {"func": "c20_request", "part": {}, "timeout": t}]
+            {"func": "c20_request", "part": {}, "timeout": t},
+            ] + [{"func": "c20_block", "part": {"lo": lo, "hi": min(lo + 0x22, 0x110)}, "timeout": max(t, 300), "path_timeout": 120,
+                  "samples": 1} for lo in range(0, 0x110, 0x22)]
     for which in ("name", "filename", "data_str", "data_bytes", "file_data_str"):
-        for form in (0, 1, 2):
+        for form in (0, 1, 2, 3):
+            if form == 3 and which not in ("name", "filename"):
+                continue
             jobs.append({"func": "c20_layout", "part": {"which": which, "maxlen": 2, "form": form, "alpha": 0 if quick else 1},
                          "timeout": t})
     return jobs
 
 
 EVIDENCE = {
-    "bounds": {"quick": "per-character lemma: every code point 0..0x10FFFF (one symbolic int); strings <= 3 chars over the 9-char "
+    "bounds": {"blocks": "c20_block: EVERY code point U+0000..U+10FFFF (surrogates excepted) alone, after a base letter and between "
+                         "letters, in name and filename, through from_tuples + render_headers (272 blocks enumerated by the solver, "
+                         "each block swept natively)",
+               "quick": "per-character lemma: every code point 0..0x10FFFF (one symbolic int); strings <= 3 chars over the 9-char "
                         "hostile alphabet for the parameter; layout: one symbolic component <= 2 chars/bytes, 0..3 extra concrete "
                         "fields, dict/list-of-tuples/RequestField input",
                "thorough": "parameter strings <= 4; layout component <= 2 chars over the 14-character alphabet (adds VT, NEL, LS, '=', '%')"},
